@@ -453,6 +453,9 @@ class BinnedTrees(Iterable[AngularTree]):
             new._patch = patch
             new.binning = binning
 
+            # invalidate the cache before the trees are rewritten, the binning
+            # file marks the trees as valid and is written last
+            new.binning_file.unlink(missing_ok=True)
             with new.trees_file.open(mode="wb") as f:
                 trees = build_trees(patch, binning, leafsize=leafsize)
                 pickle.dump(trees, f)
